@@ -68,14 +68,6 @@ theorem phOK_flagPhase {p : Nat → Bool} {ph : Phase} (h : phOK ph) : phOK (fla
 theorem phOK_good {ph : Phase} (h : phOK ph) : phOK ph.good := by
   cases ph <;> exact h
 
-theorem orphan_corrupt {j : Job} {u : UB} (h : u ∈ j.orphan) : u.corrupt = j.corrupt := by
-  unfold Job.orphan at h
-  split at h
-  · cases h
-  · split at h
-    · cases h
-    · simp only [List.mem_singleton] at h; subst h; rfl
-
 theorem popOrphans_corrupt {p : Nat → Bool} {os : List UB} {u : UB} (h : u ∈ popOrphans p os) :
     ∃ x ∈ os, u.corrupt = x.corrupt := by
   unfold popOrphans at h
@@ -87,13 +79,8 @@ theorem popOrphans_corrupt {p : Nat → Bool} {os : List UB} {u : UB} (h : u ∈
 
 theorem TI_advance {c : Cfg} {s : State} (p : Nat) (h : TI s) : TI (advance c s p) := by
   obtain ⟨a1, a2, a3, a4, a5, a6, a7⟩ := h
-  refine ⟨?_, a2, a3, a4, a5, ?_, a7⟩
-  · intro j hj; exact a1 j (List.mem_filter.1 hj).1
-  · intro u hu
-    rcases List.mem_append.1 hu with hu | hu
-    · obtain ⟨j, hj, hu⟩ := List.mem_flatMap.1 hu
-      rw [orphan_corrupt hu]; exact a1 j (List.mem_filter.1 hj).1
-    · exact a6 u hu
+  refine ⟨?_, a2, a3, a4, a5, a6, a7⟩
+  intro j hj; exact a1 j (List.mem_filter.1 hj).1
 
 theorem TI_detach {s : State} (k : Option Nat) (h : TI s) : TI (detach s k) := by
   unfold detach; split
@@ -114,14 +101,8 @@ theorem TI_busy_cons {s : State} (ph : Phase) (h : TI s) (hp : phOK ph) :
   · subst e; exact hp
   · exact h.bz x hm
 
-theorem TI_retrExit {s1 : State} {j : Job} (h : TI s1) (hj : j.corrupt = false) :
-    TI (retrExit s1 j) := by
-  obtain ⟨a1, a2, a3, a4, a5, a6, a7⟩ := h
-  refine ⟨a1, a2, a3, a4, a5, ?_, a7⟩
-  intro u hu
-  rcases List.mem_append.1 hu with hu | hu
-  · rw [orphan_corrupt hu]; exact hj
-  · exact a6 u hu
+theorem TI_retrExit {s1 : State} (j : Job) (h : TI s1) : TI (retrExit s1 j) :=
+  TI_congr h rfl rfl rfl rfl rfl rfl
 
 theorem TI_retrMove {c : Cfg} {s1 : State} {j : Job} (newc : Nat) (h : TI s1)
     (hj : j.corrupt = false) : TI (retrMove c s1 j newc) := by
@@ -161,7 +142,7 @@ theorem TI_retrDone {c : Cfg} {s2 : State} {j : Job} (newc : Nat) (h : TI s2)
       · cases hu
     · exact a6 u hu
 
-theorem TI_scanNew {s1 : State} (x : Nat) (h : TI s1) : TI (scanNew s1 x) := by
+theorem TI_scanNew {c : Cfg} {s1 : State} (x : Nat) (h : TI s1) : TI (scanNew c s1 x) := by
   unfold scanNew; split
   · exact TI_congr h rfl rfl rfl rfl rfl rfl
   · obtain ⟨a1, a2, a3, a4, a5, a6, a7⟩ := h
@@ -244,12 +225,8 @@ theorem TI_parseFinish {s1 : State} (u : Nat) (h : TI s1) : TI (parseFinish s1 u
     exact phOK_flagPhase (h.bz x hx)
   · intro v hv
     obtain ⟨x, hx, e⟩ := popOrphans_corrupt
-      (show v ∈ popOrphans (fun _ => true) (s1.retrQ.flatMap Job.orphan ++ s1.orphans) from hv)
-    rw [e]
-    rcases List.mem_append.1 hx with hx | hx
-    · obtain ⟨j, hj, hx⟩ := List.mem_flatMap.1 hx
-      rw [orphan_corrupt hx]; exact h.jq j hj
-    · exact h.ub x hx
+      (show v ∈ popOrphans (fun _ => true) s1.orphans from hv)
+    rw [e]; exact h.ub x hx
 
 theorem TI_parseMore {c : Cfg} {s1 : State} (k : Option Nat) (h : TI s1) :
     TI (parseMore c s1 k) :=
@@ -371,14 +348,14 @@ theorem TI_retrEnd {c : Cfg} {s s' : State} {j : Job} {k : Option Nat} (h : TI s
     generalize retrMove c s1 j newc = s2 at h2 hs
     split at hs
     · simp only [Option.some.injEq] at hs; subst hs
-      exact TI_retrExit h1 hj
+      exact TI_retrExit j h1
     · split at hs
       · simp only [Option.some.injEq] at hs; subst hs
-        exact TI_retrExit h1 hj
+        exact TI_retrExit j h1
       · split at hs
         · split at hs
           · simp only [Option.some.injEq] at hs; subst hs
-            exact TI_retrExit h2 hj
+            exact TI_retrExit _ h2
           · simp only [Option.some.injEq] at hs; subst hs
             exact TI_retrMore newc h2 hj
         · simp only [Option.some.injEq] at hs; subst hs
